@@ -130,6 +130,9 @@ CORPUS = [
                 params=[dict(default=1)], param_use={"0": [0], "1": [0]}),
     _chain_case(3, [[0, 1]], [_ex(target=[1], cache_in=True, args=[7, 8]), _ex(target=[1, 2], from_cache=0, args=[7])],
                 params=[dict(default=1), dict(default=2)], param_use={"1": [0, 1], "2": [1]}),
+    # an executor created BEFORE the instance is set up and run AFTER: the setup node does not run again
+    _chain_case(2, [[0, 1]], [_ex(target=[1], defer=True), dict(kind="setup", target=None, exclude=None, root=None)], setup=[0]),
+    _chain_case(3, [[0, 2], [1, 2]], [_ex(defer=True), dict(kind="call", args=[], run_debug=False), _ex(target=[2], defer=True), dict(kind="setup", target=[1], exclude=None, root=None)], setup=[0, 1], is_async=True),
     # one path rewritten between two restarts
     _chain_case(3, [[0, 1], [1, 2]], [_ex(target=[1], cache_in=True), _ex(from_cache=0), _ex(cache_in=True), _ex(from_cache=2)]),
 ]
